@@ -43,9 +43,17 @@ Technique (numbers = the ALLOWED devices of RULES_GUIDE.md "What counts as stati
       (a `for` over a constant tuple of the code is followed once per element of that constant); NUL cut: 3 (the returned
       term compared structurally with the finitely many forms of lemma P0); codec: 6 (constant) against the alias
       table of lemma C0.
-  R8  3 (the SETTING_* constants the returned term / the decisions on the way depend on), 1 (syntax queries), 6.
+  R8  3 (the SETTING_* constants the returned term / the decisions on the way depend on), 1 (syntax queries), 6;
+      domains / uris: 1, 3 (the returned value abstracted to "member m of each pair of self.domain_uri_pairs, first
+      occurrences by member k" - `_Proj`: single-definition temporaries substituted, a comprehension, an appending `for`
+      loop with a `not in` guard or a seen-set, map + lambda / itemgetter, dict / dict.fromkeys / .keys() / .values() are
+      transfer rules of that abstraction), 2 (dominance: the guards of the append).  Lemma O0.
   R9  3, 4/5 (the four sign cases zero / non-zero of the two integers of an entry, as abstract values keyed by their
       offset; lengths domain for the offsets of the reads), structural comparison of the reported text's term.  Lemma N0.
+  R10 3 (path-wise value flow of parse_pivot_frame; the returned term and the term of its length brought to the normal
+      form "window (offset, length) of the parameter" with offset / length as linear forms over the decoded integers -
+      compared in that polynomial normal form with the prescribed window (2, L - 4), L = u16be at offset 0), 4 (upper
+      bound on L read off the linear form of a decided comparison, for an explicit empty-header exit).  Lemmas W0, D2.
 
 Lemmas (each used by a transfer rule below; anything else about an assumed or symbolic value stays undecided)
   D1  a 1-byte string decodes to the same integer in both byte orders (nothing to reorder).
@@ -62,6 +70,14 @@ Lemmas (each used by a transfer rule below; anything else about an assumed or sy
       universe (or already removed), true if every element of B is in A unconditionally, else a boolean unknown.
   P0  for bytes x and separator s: x.partition(s)[0], x.split(s, 1)[0] and x.split(s)[0] are each "x up to the first
       occurrence of s (all of x if there is none)"; the r-variants / strip cut elsewhere.
+  W0  byte windows: x[a:b] is the b-a bytes of x at offset a (bounds non-negative and inside x for a well-formed
+      encoding), x[a:] reaches to the end, x[:-k] drops the last k bytes, the window (c, n) of the window (a, L) of x is the
+      window (a+c, min(L-c, n)) of x (decided only when L-c-n is a constant), a complete read of n bytes from a stream
+      over x with the cursor at c is x[c:c+n], bytes()/memoryview() of a window is the same window; two windows of the
+      same data with different constant offsets, or lengths that differ by a non-zero constant, differ for some data.
+  O0  a dict keeps the position of the first insertion of each distinct key (and the last value assigned to it);
+      iterating it / .keys() yields the keys, .values() one value per distinct key; dict.fromkeys(it) / dict(pairs)
+      insert in iteration order; `if x not in acc: acc.append(x)` keeps the first occurrence of every distinct x.
   C0  latin-1 (aliases iso-8859-1, l1, cp819, ...) is the codec that maps every byte 0..255 to exactly one character, so
       decoding never drops or merges bytes; ascii / utf-8 with "ignore" and the Windows code pages do not.
 """
@@ -75,7 +91,7 @@ import os
 
 from csverif import tables
 from csverif.astutil import (
-    bind_args, body_walk, compare_parts, const_eval, dotted, fn_calls, is_const, kwarg, NotConst, param_annotation,
+    assignments_to, bind_args, body_walk, compare_parts, const_eval, dotted, fn_calls, is_const, kwarg, NotConst, param_annotation,
     param_defaults, params, src,
 )
 
@@ -106,9 +122,13 @@ def run(ctx):
         "in the program parsers is a 4-byte big-endian unsigned decode of a whole 4-byte read; BeaconGate group tests "
         "analysed over all outcomes of the (symbolic) subset tests; pretty-function table entries applied to a symbolic "
         "argument ('which decoder is applied to the data'); attributes used on cstruct instances checked against the "
-        "installed dissect.cstruct sources; derived properties read the setting their name says."
+        "installed dissect.cstruct sources; derived properties read the setting their name says; domains / uris are the first / "
+        "second member of each pair of domain_uri_pairs, de-duplicated (if at all) by that same member; the pivot frame header "
+        "decoder returns exactly the window (offset 2, length L - 4) of the data, L the big-endian unsigned 16-bit prefix at "
+        "offset 0 (stream reads and slices brought to one window normal form, lengths compared as linear forms)."
     )
-    rep.not_decided = ["decoded byte arguments for all programs", "parse_gargle endianness (no independent reference)", "killdate formatting, IPv4 rendering",
+    rep.not_decided = ["decoded byte arguments for all programs", "parse_gargle endianness (no independent reference)", "killdate formatting, IPv4 rendering", "whether domains / uris are de-duplicated at all (only by which member)",
+                       "a signed decode of the frame-header length prefix (undecided)",
                        "any test on an assumed or symbolic value that the lemmas of the module docstring do not decide (the obligation is then undecided)",
                        "lists that a loop both modifies and inspects; scalars re-bound in a loop (unknown; obligations depending on them are undecided)"]
     rep.trusted_base = ["CPython ast", "C-definition parser", "reference opcode tables in csverif/tables.py and _BUILD_SELECTORS (rules/c03.py)",
@@ -126,7 +146,10 @@ def run(ctx):
                         "lemma N0: an unsigned decode and a length are >= 0",
                         "lemma S0: superset test of a symbolic subset of a constant universe against a constant set",
                         "lemma P0: x.partition(s)[0], x.split(s, 1)[0], x.split(s)[0] are 'x up to the first s'",
-                        "lemma C0: latin-1 (and its aliases) maps every byte to exactly one character"]
+                        "lemma C0: latin-1 (and its aliases) maps every byte to exactly one character",
+                        "lemma W0: byte windows - slices with non-negative in-range bounds, x[:-k], nested slices and complete stream reads denote (offset, length) windows of the data",
+                        "lemma O0: dicts keep first-insertion order of distinct keys; `if x not in acc: acc.append(x)` keeps first occurrences",
+                        "frame header format (property statement): u16be L, L - 4 header bytes, 4-byte frame-size placeholder; a well-formed L is >= 4"]
     rep.exhaustive = True
     r1(ctx)
     r2(ctx)
@@ -137,6 +160,7 @@ def run(ctx):
     r7(ctx)
     r8(ctx)
     r9(ctx)
+    r10(ctx)
 
 
 def r1(ctx):
@@ -3307,6 +3331,497 @@ def _nul_cut(ctx, g):
     return None, f"the returned value {shown} is not a cut the rule understands"
 
 
+# ---------------------------------------------------------------------------------------------- pivot frame header (R10)
+# Byte windows.  A value cut out of the data of a setting - by a complete read of a stream over it, by slicing, or by
+# both - is brought to the normal form "length bytes of <parameter> starting at offset start", start and length being
+# LINEAR FORMS over the integer terms of the path (policy device 3: terms compared in polynomial normal form).  Lemma W0
+# (Python data model, for a well-formed encoding: bounds non-negative and inside the data):
+#   x[a:b] is the b-a bytes of x at offset a;  x[a:] reaches to the end of x;  x[:-k] drops the last k bytes;
+#   the window (c, n) of the window (a, L) of x is the window (a+c, min(L-c, n)) of x;
+#   a complete read of n bytes from a stream over x whose cursor is at c is x[c:c+n];
+#   bytes()/bytearray()/memoryview() of a window is the same window.
+# An integer decoded from a window is the atom ("dec", window, byteorder, signed) whatever spelled it (int.from_bytes of a
+# read, of a slice, a struct format), so `u16be(p.read(2))` and `u16be(data[:2])` are the same atom.
+_W_END = "to-the-end"
+
+
+def _lin_add(a, b, k=1):
+    out = dict(a)
+    for t, c in b.items():
+        out[t] = out.get(t, 0) + k * c
+        if out[t] == 0 and t != 1:
+            del out[t]
+    out.setdefault(1, 0)
+    return out
+
+
+def _lin(v, st):
+    """{atom: coefficient, 1: constant} of an integer term, or None"""
+    if isinstance(v, bool) or v is None:
+        return None
+    if isinstance(v, int):
+        return {1: v}
+    if isinstance(v, _T) and v.op in ("binAdd", "binSub") and len(v.args) == 2:
+        a, b = _lin(v.args[0], st), _lin(v.args[1], st)
+        return None if a is None or b is None else _lin_add(a, b, 1 if v.op == "binAdd" else -1)
+    if isinstance(v, _T) and v.op == "binMult" and len(v.args) == 2:
+        for k, x in (v.args, v.args[::-1]):
+            if isinstance(k, int) and not isinstance(k, bool):
+                a = _lin(x, st)
+                return None if a is None else _lin_add({1: 0}, a, k)
+        return None
+    data = None
+    if isinstance(v, _T) and v.op == "dec" and len(v.args) == 3:
+        data, bo, signed = v.args
+    elif isinstance(v, _T) and v.op == "call" and len(v.args) == 4 and v.args[0] == "int.from_bytes":
+        data, bo, signed = v.args[1:]
+    if data is not None and isinstance(bo, str) and isinstance(signed, (bool, int)):
+        w = _window(data, st)
+        if w is not None and w[2] != _W_END and set(w[1]) == {1} and set(w[2]) == {1}:
+            return {("dec", w[0], w[1][1], w[2][1], bo, bool(signed)): 1, 1: 0}
+    if isinstance(v, (_T, _Rd, _Par)):
+        return {("term", _d(v)): 1, 1: 0}
+    return None
+
+
+def _window(v, st, depth=0):
+    """(parameter name, start, length | _W_END) of a value cut out of a parameter (lemma W0), or None"""
+    if depth > 12:
+        return None
+    if isinstance(v, _Par):
+        return (v.name, {1: 0}, _W_END)
+    if isinstance(v, _T) and v.op == "cast" and len(v.args) == 1:
+        return _window(v.args[0], st, depth + 1)
+    if isinstance(v, _Rd):
+        ent = next((r for r in st.reads if r[0] == v.idx), None)
+        if ent is None or v.pos is None:
+            return None
+        return _sub_window(_window(ent[3], st, depth + 1), _lin(v.pos, st), _lin(v.n, st))
+    if isinstance(v, _T) and v.op == "slice" and len(v.args) in (3, 4):
+        if len(v.args) == 4 and v.args[3] is not None:
+            return None
+        base = _window(v.args[0], st, depth + 1)
+        lo, hi = v.args[1], v.args[2]
+        if base is None:
+            return None
+        lo_l = {1: 0} if lo is None else _lin(lo, st)
+        if lo_l is None or (set(lo_l) == {1} and lo_l[1] < 0):
+            return None
+        if hi is None:
+            return _sub_window(base, lo_l, _W_END)
+        hi_l = _lin(hi, st)
+        if hi_l is None:
+            return None
+        if set(hi_l) == {1} and hi_l[1] < 0:
+            if base[2] == _W_END:
+                return None
+            hi_l = _lin_add(base[2], hi_l)  # x[:-k]: the end is k bytes before the end of the window
+        return _sub_window(base, lo_l, _lin_add(hi_l, lo_l, -1))
+    return None
+
+
+def _sub_window(base, start, length):
+    if base is None or start is None or length is None:
+        return None
+    name, a, big = base
+    rest = _W_END if big == _W_END else _lin_add(big, start, -1)
+    if length == _W_END:
+        ln = rest
+    elif rest == _W_END:
+        ln = length
+    else:
+        diff = _lin_add(rest, length, -1)
+        if set(diff) != {1}:
+            return None  # which of the two ends comes first is not known
+        ln = rest if diff[1] <= 0 else length
+    return (name, _lin_add(a, start), ln)
+
+
+def _show_lin(l, names):
+    parts = []
+    for t, c in l.items():
+        if t == 1:
+            continue
+        nm = names.get(t, "<an integer>")
+        parts.append(nm if c == 1 else f"{c}*{nm}")
+    s = " + ".join(parts)
+    k = l.get(1, 0)
+    if not parts:
+        return str(k)
+    return s + (f" {'+' if k > 0 else '-'} {abs(k)}" if k else "")
+
+
+def _prefix_bound(p, par):
+    """The largest value of the length prefix L (the u16be integer at offset 0 of parameter `par`) that the decisions of
+    path p allow, when one of them bounds it from above: `L + c <= 0`, `L + c < 0`, `L + c == 0`, `not (L + c)`, their
+    mirrored and negated spellings - read off the linear form of left - right (no solving); else None."""
+    flip = {"Lt": "Gt", "LtE": "GtE", "Gt": "Lt", "GtE": "LtE", "Eq": "Eq", "NotEq": "NotEq"}
+    neg = {"Lt": "GtE", "LtE": "Gt", "Gt": "LtE", "GtE": "Lt", "Eq": "NotEq", "NotEq": "Eq"}
+    best = None
+    for _node, core, truth, _w in p.st.forks:
+        if isinstance(core, _T) and core.op == "cmp" and len(core.args) == 3 and core.args[0] in flip:
+            a, b = _lin(core.args[1], p.st), _lin(core.args[2], p.st)
+            if a is None or b is None:
+                continue
+            op, d = core.args[0], _lin_add(a, b, -1)
+        else:
+            op, d = "NotEq", _lin(core, p.st)  # truthiness of an integer: != 0
+            if d is None:
+                continue
+        atoms = [t for t in d if t != 1]
+        if len(atoms) != 1 or atoms[0][:4] != ("dec", par, 0, 2) or atoms[0][4:] != ("big", False) or d[atoms[0]] not in (1, -1):
+            continue
+        if d[atoms[0]] == -1:
+            op, d = flip[op], _lin_add({1: 0}, d, -1)
+        if not truth:
+            op = neg[op]
+        ub = {"LtE": -d[1], "Lt": -d[1] - 1, "Eq": -d[1]}.get(op)
+        if ub is not None and (best is None or ub < best):
+            best = ub
+    return best
+
+
+def _frame_path(p, par):
+    """('ok' | 'bad' | 'undecided', detail) for one returning path of the frame-header decoder"""
+    if isinstance(p.value, bytes) and p.value == b"":
+        # the empty header: right exactly when the path is taken only for L <= 4 (a well-formed L is >= 4: it counts the
+        # 4-byte placeholder), i.e. when there is nothing between the prefix and the placeholder
+        ub = _prefix_bound(p, par)
+        if ub is None:
+            return "undecided", "a path returns b'' under a condition that does not bound the length prefix"
+        if ub > 4:
+            return "bad", f"returns b'' for length prefixes up to {ub} (the header is empty only when L = 4; L counts the header and the 4-byte placeholder)"
+        return "ok", "returns b'' when L <= 4 (no header bytes)"
+    w = _window(p.value, p.st)
+    if w is None:
+        return "undecided", "the returned value is not recognised as a contiguous part of the setting's data"
+    name, start, length = w
+    if name != par:
+        return "undecided", "the returned value is not cut out of the setting's data"
+    if set(start) != {1}:
+        return "undecided", "the offset of the returned bytes is not a constant"
+    if length == _W_END:
+        return "bad", f"returns everything from offset {start[1]} to the end of the data: not limited by the length prefix (placeholder and padding included)"
+    atoms = [t for t in length if t != 1]
+    decs = [t for t in atoms if t[0] == "dec"]
+    if not atoms:
+        return "bad", f"returns a fixed number of bytes ({length[1]}), not the number given by the length prefix"
+    if len(atoms) != 1 or len(decs) != 1 or length[decs[0]] != 1:
+        return "undecided", "the length of the returned bytes is not <one decoded integer> + constant"
+    _k, src_, a, n, bo, signed = decs[0]
+    names = {decs[0]: "L"}
+    shown = f"returns the {_show_lin(length, names)} bytes at offset {start[1]}, L = the {n}-byte {bo}-endian {'signed' if signed else 'unsigned'} integer at offset {a}"
+    if src_ != par:
+        return "undecided", "the length is not decoded from the setting's data"
+    if (a, n) != (0, 2) or bo != "big":
+        return "bad", shown + " (required: L = the 2-byte big-endian unsigned integer at offset 0)"
+    if start[1] != 2 or length[1] != -4:
+        return "bad", shown + " (required: the L - 4 bytes at offset 2)"
+    if signed:
+        return "undecided", shown + "; a signed decode agrees with the unsigned one only below 2**15 (lemma D2), which is not known here"
+    return "ok", shown
+
+
+def r10(ctx):
+    """parse_pivot_frame: SETTING_{TCP,SMB}_FRAME_HEADER is u16be L, then the frame header of L - 4 bytes (L also counts
+    the 4-byte placeholder of the frame size that follows the header), then padding.  The decoded value must be exactly
+    the window (offset 2, length L - 4) of the data."""
+    f = ctx.repo.func("beacon.parse_pivot_frame")
+    text = "header = the (L - 4) bytes that follow the u16be length prefix L"
+    ps = params(f.node)
+    paths, stop = _run(ctx, f)
+    if stop is not None or not paths or not ps:
+        ctx.undecided("R10", "CURSOR", f, text, f"evaluation stopped: {stop}" if stop else "no path", f.node)
+        ctx.rep.count("frame_header_paths", 1, floor=1)
+        return
+    res = []
+    for p in paths:
+        if p.end == "raise":
+            continue  # an error exit decodes nothing
+        if p.end != "return" or p.imprecise:
+            res.append(("undecided", "a path does not return a value" if p.end != "return" else p.imprecise[0]))
+        else:
+            res.append(_frame_path(p, ps[0]))
+    bad = [d for s, d in res if s == "bad"]
+    und = [d for s, d in res if s == "undecided"]
+    if bad:
+        ctx.ob("R10", "CURSOR", f, text, False, bad[0], f.node)
+    elif und or not res:
+        ctx.undecided("R10", "CURSOR", f, text, und[0] if und else "every path raises", f.node)
+    else:
+        ctx.ob("R10", "CURSOR", f, text, True, max((d for _s, d in res), key=len), f.node)
+    ctx.rep.count("frame_header_paths", len(paths), floor=1)
+
+
+class _Proj:
+    """Which member of the pairs of `self.domain_uri_pairs` a derived property returns, and how it is de-duplicated
+    (policy devices 1 and 3: syntax queries, single-definition temporaries substituted, dominance for the guards of an
+    accumulating loop; nothing is evaluated).  Abstract values:
+      ("pairs",)      the pair list itself (or list / tuple / iter / an identity comprehension of it)
+      ("seq", m, k)   an ordered collection holding member m (0 | 1) of the pairs; k is None when every pair contributes,
+                      else the member by whose first occurrence an element is kept (k == m: the distinct members m in
+                      order of first occurrence)
+      ("dict", k, v)  a dict keyed by member k of the pairs with member v (or None) as value
+      None            anything else (not understood -> the obligation is undecided)
+    Transfer rules (facts of the Python data model, lemma O0): a dict keeps the position of the FIRST insertion of each
+    distinct key; iterating it / .keys() yields the keys, .values() one value per distinct key; dict.fromkeys(it) and
+    dict(pairs) insert in iteration order; `if x not in acc: acc.append(x)` (or a seen-set fed with the same x under the
+    same guard) keeps the first occurrence of every distinct x.  A comprehension, a `for` loop that appends, map() with a
+    lambda / itemgetter, tuple targets and `p[i]` subscripts are all the same selection."""
+
+    _DICTS = ("dict", "OrderedDict", "collections.OrderedDict")
+
+    def __init__(self, ctx, f):
+        from csverif.q import FuncView
+
+        self.ctx, self.f, self.fn = ctx, f, f.node
+        self.fv = FuncView.of(f.node)
+        ps = params(f.node)
+        self.selfname = ps[0] if ps else "self"
+
+    @staticmethod
+    def _empty_list(e):
+        return (isinstance(e, ast.List) and not e.elts) or (isinstance(e, ast.Call) and dotted(e.func) == "list" and not e.args and not e.keywords)
+
+    def returned(self):
+        """[(abstract value | None, node)] for the returns of the property; `return []` (no pairs) says nothing."""
+        out = []
+        for r in (s for s in body_walk(self.fn) if isinstance(s, ast.Return)):
+            if r.value is None:
+                out.append((None, r))
+            elif not self._empty_list(r.value):
+                out.append((self.value(r.value), r.value))
+        return out
+
+    def _only_read(self, name):
+        """the local is only read through methods that do not modify it (so its single definition is its value)"""
+        for n in body_walk(self.fn):
+            if isinstance(n, ast.Name) and n.id == name:
+                if not isinstance(n.ctx, ast.Load):
+                    if isinstance(n.ctx, ast.Del):
+                        return False
+                    continue
+                par = self.fv.parent.get(id(n))
+                if isinstance(par, ast.Attribute) and par.value is n and par.attr not in ("keys", "values", "items", "copy"):
+                    return False
+                if isinstance(par, ast.Subscript) and par.value is n and not isinstance(par.ctx, ast.Load):
+                    return False
+        return True
+
+    def member(self, x, target):
+        """0 | 1: x is that member of the pair bound to `target`; 'whole': the pair itself; None: something else"""
+        from csverif.q import inline
+
+        names = frozenset(n.id for n in ast.walk(target) if isinstance(n, ast.Name))
+        x = inline(self.fn, x, stop=names)
+        if isinstance(target, (ast.Tuple, ast.List)) and len(target.elts) == 2 and all(isinstance(t, ast.Name) for t in target.elts):
+            a, b = target.elts[0].id, target.elts[1].id
+            if a == b:
+                return None
+            if isinstance(x, ast.Name):
+                return 0 if x.id == a else 1 if x.id == b else None
+            if isinstance(x, ast.Tuple) and [dotted(t) for t in x.elts] == [a, b]:
+                return "whole"
+            return None
+        if isinstance(target, ast.Name):
+            if isinstance(x, ast.Name) and x.id == target.id:
+                return "whole"
+            if isinstance(x, ast.Subscript) and isinstance(x.value, ast.Name) and x.value.id == target.id and not isinstance(x.slice, ast.Slice):
+                k = _c(x.slice)
+                if isinstance(k, int) and not isinstance(k, bool):
+                    return {0: 0, -2: 0, 1: 1, -1: 1}.get(k)
+        return None
+
+    def _select(self, source, m):
+        """the collection obtained by taking `m` of every element of `source`"""
+        if source == ("pairs",):
+            return ("seq", m, None) if m in (0, 1) else ("pairs",) if m == "whole" else None
+        if source is not None and source[0] == "seq" and m == "whole":
+            return source
+        return None
+
+    def value(self, e, depth=0):
+        if depth > 10 or e is None:
+            return None
+        if isinstance(e, ast.Name):
+            if e.id in params(self.fn):
+                return None
+            acc = self.accumulator(e.id, depth)
+            if acc is not NotImplemented:
+                return acc
+            defs = assignments_to(self.fn, e.id)
+            if len(defs) == 1 and defs[0][1] is not None and self._only_read(e.id):
+                return self.value(defs[0][1], depth + 1)
+            return None
+        if dotted(e) == f"{self.selfname}.domain_uri_pairs":
+            return ("pairs",)
+        if isinstance(e, (ast.ListComp, ast.GeneratorExp, ast.DictComp)):
+            if len(e.generators) != 1:
+                return None
+            g = e.generators[0]
+            if g.ifs or g.is_async:
+                return None
+            source = self.value(g.iter, depth + 1)
+            if isinstance(e, ast.DictComp):
+                if source != ("pairs",):
+                    return None
+                mk = self.member(e.key, g.target)
+                mv = None if is_const(e.value, None) else self.member(e.value, g.target)
+                if mk in (0, 1) and (mv in (0, 1) or is_const(e.value, None)):
+                    return ("dict", mk, mv)
+                return None
+            return self._select(source, self.member(e.elt, g.target))
+        if isinstance(e, ast.Call):
+            if e.keywords or any(isinstance(a, ast.Starred) for a in e.args):
+                return None
+            fd = dotted(e.func)
+            if fd in ("list", "tuple", "iter") and len(e.args) == 1:
+                v = self.value(e.args[0], depth + 1)
+                if v is not None and v[0] == "dict":
+                    return ("seq", v[1], v[1])
+                return v
+            if fd in self._DICTS and len(e.args) == 1:
+                v = self.value(e.args[0], depth + 1)
+                if v == ("pairs",):
+                    return ("dict", 0, 1)
+                return v if v is not None and v[0] == "dict" else None
+            if isinstance(e.func, ast.Attribute) and e.func.attr == "fromkeys" and dotted(e.func.value) in self._DICTS and 1 <= len(e.args) <= 2:
+                v = self.value(e.args[0], depth + 1)
+                if v is not None and v[0] == "seq" and v[2] in (None, v[1]):
+                    return ("dict", v[1], None)
+                return None
+            if isinstance(e.func, ast.Attribute) and not e.args and e.func.attr in ("keys", "values", "copy"):
+                v = self.value(e.func.value, depth + 1)
+                if v is not None and v[0] == "dict":
+                    if e.func.attr == "copy":
+                        return v
+                    if e.func.attr == "keys":
+                        return ("seq", v[1], v[1])
+                    return ("seq", v[2], v[1]) if v[2] is not None else None
+                return v if v is not None and e.func.attr == "copy" else None
+            if fd == "map" and len(e.args) == 2:
+                source = self.value(e.args[1], depth + 1)
+                fn = e.args[0]
+                if isinstance(fn, ast.Lambda) and len(fn.args.args) == 1 and not (fn.args.vararg or fn.args.kwarg or fn.args.kwonlyargs or fn.args.defaults):
+                    return self._select(source, self.member(fn.body, ast.Name(id=fn.args.args[0].arg, ctx=ast.Store())))
+                if isinstance(fn, ast.Call) and (dotted(fn.func) or "").split(".")[-1] == "itemgetter" and len(fn.args) == 1 and not fn.keywords:
+                    k = _c(fn.args[0])
+                    if isinstance(k, int) and not isinstance(k, bool) and k in (0, 1, -1, -2):
+                        return self._select(source, k % 2)
+                return None
+        return None
+
+    def accumulator(self, name, depth=0):
+        """The list built by `name = []; for <pair> in <pairs>: [if x not in ...:] name.append(x)`.  NotImplemented when
+        `name` is not a local that starts as an empty list; None when it is one but is used in a way not understood."""
+        from csverif.q import dominating_conditions
+
+        defs = assignments_to(self.fn, name)
+        if len(defs) != 1 or defs[0][1] is None or not self._empty_list(defs[0][1]):
+            return NotImplemented
+        appends = []
+        for u in body_walk(self.fn):
+            if not (isinstance(u, ast.Name) and u.id == name and isinstance(u.ctx, ast.Load)):
+                continue
+            par = self.fv.parent.get(id(u))
+            gp = self.fv.parent.get(id(par)) if par is not None else None
+            if isinstance(par, ast.Attribute) and par.attr == "append" and isinstance(gp, ast.Call) and gp.func is par and len(gp.args) == 1 and not gp.keywords \
+                    and not isinstance(gp.args[0], ast.Starred) and isinstance(self.fv.parent.get(id(gp)), ast.Expr):
+                appends.append(gp)
+            elif isinstance(par, ast.Compare) and len(par.ops) == 1 and isinstance(par.ops[0], (ast.In, ast.NotIn)) and par.comparators[0] is u:
+                pass
+            elif isinstance(par, ast.Return):
+                pass
+            else:
+                return None
+        if not appends:
+            return None
+        loops = {id(self.fv.enclosing(a, (ast.For, ast.AsyncFor, ast.While))): self.fv.enclosing(a, (ast.For, ast.AsyncFor, ast.While)) for a in appends}
+        if len(loops) != 1:
+            return None
+        loop = next(iter(loops.values()))
+        if not isinstance(loop, ast.For) or loop.orelse or self.fv.enclosing(loop, (ast.For, ast.AsyncFor, ast.While)) is not None:
+            return None
+        if any(isinstance(n, (ast.Break, ast.Return)) for n in ast.walk(loop)):
+            return None
+        tnames = [n.id for n in ast.walk(loop.target) if isinstance(n, ast.Name)]
+        if any(len(assignments_to(self.fn, t)) != 1 for t in tnames):
+            return None  # the loop variable is re-bound: it is not the member of the pair any more
+        source = self.value(loop.iter, depth + 1)
+        inside = {id(n) for n in ast.walk(loop)}
+
+        def guards(node):
+            """[(member tested, container name)] of the `not in` guards of a statement of the loop; None if it has another guard"""
+            out = []
+            for _t, pol, tn in dominating_conditions(self.ctx, self.f, node):
+                if id(tn) not in inside:
+                    continue
+                if isinstance(tn, ast.Compare) and len(tn.ops) == 1 and isinstance(tn.ops[0], (ast.In, ast.NotIn)) and isinstance(tn.comparators[0], ast.Name):
+                    if isinstance(tn.ops[0], ast.NotIn) != pol:
+                        return None  # appended only when already present
+                    out.append((self.member(tn.left, loop.target), tn.comparators[0].id))
+                else:
+                    return None
+            return out
+
+        ms, keys = set(), set()
+        for a in appends:
+            ms.add(self.member(a.args[0], loop.target))
+            gs = guards(a)
+            if gs is None:
+                return None
+            for my, cont in gs:
+                if my not in (0, 1, "whole"):
+                    return None
+                if cont != name and not self._seen_set(cont, loop, my, sorted(gs, key=repr), guards):
+                    return None
+                keys.add(my)
+            if not gs:
+                keys.add(None)
+        if len(ms) != 1 or len(keys) != 1:
+            return None
+        m, key = next(iter(ms)), next(iter(keys))
+        sel = self._select(source, m)
+        if sel is None or sel[0] != "seq":
+            return None
+        if key is None:
+            return sel
+        if source == ("pairs",) and key in (0, 1):
+            return ("seq", sel[1], key)
+        if source[0] == "seq" and key == "whole" and sel[2] in (None, sel[1]):
+            return ("seq", sel[1], sel[1])
+        return None
+
+    def _seen_set(self, cont, loop, my, gs, guards):
+        """`cont` is a set that starts empty and receives, under the same guards as the append, the same member that the
+        guard tests - so `x not in cont` is 'x has not occurred before'."""
+        defs = assignments_to(self.fn, cont)
+        if len(defs) != 1 or not (isinstance(defs[0][1], ast.Call) and dotted(defs[0][1].func) == "set" and not defs[0][1].args and not defs[0][1].keywords):
+            return False
+        adds = []
+        for u in body_walk(self.fn):
+            if not (isinstance(u, ast.Name) and u.id == cont and isinstance(u.ctx, ast.Load)):
+                continue
+            par = self.fv.parent.get(id(u))
+            gp = self.fv.parent.get(id(par)) if par is not None else None
+            if isinstance(par, ast.Attribute) and par.attr == "add" and isinstance(gp, ast.Call) and gp.func is par and len(gp.args) == 1 and not gp.keywords \
+                    and isinstance(self.fv.parent.get(id(gp)), ast.Expr):
+                adds.append(gp)
+            elif isinstance(par, ast.Compare) and len(par.ops) == 1 and isinstance(par.ops[0], (ast.In, ast.NotIn)) and par.comparators[0] is u:
+                pass
+            else:
+                return False
+        if not adds:
+            return False
+        for a in adds:
+            if self.fv.enclosing(a, (ast.For, ast.AsyncFor, ast.While)) is not loop or self.member(a.args[0], loop.target) != my:
+                return False
+            g2 = guards(a)
+            if g2 is None or sorted(g2, key=repr) != gs:
+                return False
+        return True
+
+
 def r8(ctx):
     want = {"port": "SETTING_PORT", "watermark": "SETTING_WATERMARK", "sleeptime": "SETTING_SLEEPTIME", "jitter": "SETTING_JITTER",
             "protocol": "SETTING_PROTOCOL", "is_trial": "SETTING_CRYPTO_SCHEME", "public_key": "SETTING_PUBKEY", "submit_uri": "SETTING_SUBMITURI"}
@@ -3341,17 +3856,26 @@ def r8(ctx):
     ok = len(g) == 1 and nval == 2
     sp = [c for c in fn_calls(pairs.node) if isinstance(c.func, ast.Attribute) and c.func.attr == "split" and c.args and is_const(c.args[0], ",")]
     ctx.ob("R8", "AGREE", pairs, "grouper(split(','), 2)", ok and len(sp) == 1, "pairs are consecutive members of the comma-separated list" if ok else "pairing is not grouper(..., 2)")
+    # domains / uris: the distinct first / second members of the pairs, in order of first occurrence.  The value the
+    # property returns is abstracted to (which member of each pair, by which member it is de-duplicated) - see _Proj.
+    nth = ["first", "second"]
     for prop, idx in (("domains", 0), ("uris", 1)):
         f = ctx.repo.func(f"beacon.BeaconConfig.{prop}")
-        comps = [n for n in body_walk(f.node) if isinstance(n, (ast.GeneratorExp, ast.ListComp, ast.SetComp))]
-        ok = False
-        detail = "no comprehension over self.domain_uri_pairs"
-        for cmp_ in comps:
-            gen = cmp_.generators[0]
-            if dotted(gen.iter) == "self.domain_uri_pairs" and isinstance(gen.target, ast.Tuple) and len(gen.target.elts) == 2:
-                ok = dotted(cmp_.elt) == dotted(gen.target.elts[idx])
-                detail = f"takes member {['first', 'second'][idx]} of each pair={ok} ({src(cmp_)})"
-        ctx.ob("R8", "AGREE", f, prop, ok, detail)
+        pj = _Proj(ctx, f)
+        vals = pj.returned()
+        seqs = [(v, n) for v, n in vals if v is not None and v[0] == "seq"]
+        bad = [(v, n) for v, n in seqs if v[1] != idx or v[2] not in (None, idx)]
+        if bad:
+            v, n = bad[0]
+            why = f"takes the {nth[v[1]]} member of each pair (required: the {nth[idx]})" if v[1] != idx else \
+                f"keeps one {nth[idx]} member per distinct {nth[v[2]]} member (required: the distinct {nth[idx]} members)"
+            ctx.ob("R8", "AGREE", f, prop, False, f"{why}: {src(n)[:100]}", n)
+        elif not seqs or len(seqs) != len(vals):
+            n = next((n for v, n in vals if v is None or v[0] != "seq"), f.node)
+            ctx.undecided("R8", "AGREE", f, prop, "the returned value is not recognised as a selection of one member of each pair of self.domain_uri_pairs"
+                          + (f" ({src(n)[:80]})" if n is not f.node else ""), n)
+        else:
+            ctx.ob("R8", "AGREE", f, prop, True, f"the {nth[idx]} member of each pair of self.domain_uri_pairs" + (", first occurrences" if seqs[0][0][2] is not None else ""), seqs[0][1])
     f = ctx.repo.func("beacon.BeaconConfig.max_setting_enum")
     ok = any(isinstance(c, ast.Call) and dotted(c.func) == "max" and c.args and dotted(c.args[0]) == "self.setting_enums" for c in fn_calls(f.node))
     ctx.ob("R8", "AGREE", f, "max(self.setting_enums)", ok, "highest setting index" if ok else "not max(self.setting_enums)")
